@@ -122,6 +122,9 @@ impl Cfg {
             "T300b30" => Cfg::new(4 << 20, 300, 64, reuse).with_bloom_bits(30),
             // up to four live snapshots
             "T300s4" => Cfg::new(4 << 20, 300, 1, reuse).with_max_snapshots(4),
+            // 1000-byte files, 512-byte blocks: with one 1120-byte value (class 13) a compaction output
+            // is closed right behind the entry after it
+            "F1000" => Cfg::new(4 << 20, 1000, 512, reuse),
             _ => return None,
         })
     }
@@ -323,6 +326,19 @@ pub fn value_for(stamp: u64, key_idx: u8, class: u8, cfg: &Cfg) -> Vec<u8> {
     }
     if class == 11 {
         return value_with_embedded_log_record(&base);
+    }
+    if class == 13 {
+        // 1120 bytes of hexadecimal text that the block compression hardly shrinks
+        let mut x: u64 = 0x9E37_79B9_7F4A_7C15 ^ (stamp << 8) ^ key_idx as u64;
+        let mut v = base.clone();
+        while v.len() < 1120 {
+            x ^= x << 13;
+            x ^= x >> 7;
+            x ^= x << 17;
+            v.extend_from_slice(format!("{:016x}", x).as_bytes());
+        }
+        v.truncate(1120);
+        return v;
     }
     if class == 3 {
         // 3000 incompressible bytes: a table block of its own, 1.5 filter ranges (2 KiB) long
